@@ -6,7 +6,7 @@ import json
 import uuid
 
 import common
-from c10 import FastModel
+from c10 import FastModel, load_cy_uri
 
 ALPHABET = ['&', '=', ',', '+', '%', '4', '1', 'a', 'f', 'G', '\x00', '\xe9']
 OPTS = [(False, False), (False, True), (True, False), (True, True)]   # (keep_blank, csv)
@@ -97,6 +97,8 @@ def main(ctx):
 
 def parse_part(ctx, uri, model, strings):
     corr = None
+    cy = load_cy_uri()
+    ctx.cov['cython_twin_parse'] = 'cross-checked' if cy else 'no built artifact in VERIF_REPO'
     for kb, csv in OPTS:
         outs = model.run_many([[0, s, kb, csv] for s in strings])
         for s, o in zip(strings, outs):
@@ -109,6 +111,18 @@ def parse_part(ctx, uri, model, strings):
                 continue
             ref = m_params(o[1])
             ctx.count('parse')
+            if cy is not None:
+                try:
+                    rc = canon_params(cy.parse_query_string(s, kb, csv))
+                except Exception as e:  # noqa: BLE001
+                    rc = type(e).__name__
+                ctx.count('cy-parse')
+                if rc != ref:
+                    ctx.violation('parse-not-reference',
+                                  {'fn': 'cyutil.uri.parse_query_string', 'input': s, 'keep_blank': kb, 'csv': csv,
+                                   'impl': rc, 'reference': ref,
+                                   'clause': 'mapping equals the form-urlencoded reference reading (Cython twin)'},
+                                  key='cy-parse-ref')
             ctx.note_case(('p', s, kb, csv), bool(r))
             if r != ref:
                 ctx.violation('parse-not-reference',
